@@ -81,7 +81,19 @@ def opRealign (j : Json) : E Json := do
   pure <| Json.mkObj [("res", lJ rJ (realign internal del x))]
 
 
+def opOfLists (j : Json) : E Json := do
+  let vs ← jList (fun r => do
+      let k ← jInt (← jIdx r 0); let x ← jRat (← jIdx r 1); let y ← jRat (← jIdx r 2); pure (k, x, y)) (← field j "v")
+  let es ← jList (fun r => do
+      let k ← jInt (← jIdx r 0); let a ← jInt (← jIdx r 1); let b ← jInt (← jIdx r 2); pure (k, a, b)) (← field j "e")
+  let cs ← jList (fun r => do
+      let k ← jInt (← jIdx r 0); let vs ← jList jInt (← jIdx r 1); pure (k, vs)) (← field j "c")
+  let m := Mesh.ofLists vs es cs
+  let m := if (← jBool (← field j "orphans")) then m.orphanRemoval else m
+  pure <| Json.mkObj [("mesh", meshJ m), ("consistent", .bool m.Consistent), ("failing", lJ Json.str m.failing)]
+
 def ops : List Op := [
+  ("of_lists", opOfLists),
   ("cell_geom", opCellGeom), ("consistent", opConsistent), ("frame", opFrame), ("by_cells", opByCells),
   ("genmesh", opGenMesh), ("pick", opPick), ("fmatrix", opFMatrix), ("realign", opRealign)]
 
